@@ -42,6 +42,7 @@ type Node struct {
 	Catch   []*Node `json:"catch,omitempty"`
 	Finally []*Node `json:"finally,omitempty"`
 	HasFin  bool    `json:"hasfin,omitempty"`
+	Edit    bool    `json:"edit,omitempty"` // the catch block decorates the caught error in place (an error value belongs to the one raise that produced it)
 	Else    []*Node `json:"else,omitempty"`
 }
 
@@ -101,6 +102,10 @@ func render(n *Node) string {
 		s += " {\n"
 		if n.Var {
 			s += "pv(" + id + ", " + ev + ")\n"
+		}
+		if n.Var && n.Edit {
+			// (in a try of its own: not every caught value has a Message field)
+			s += "try { " + ev + ".Message = \"ed \" + " + ev + ".Message } catch { }\n"
 		}
 		s += renderList(n.Catch) + "\n}"
 		if n.HasFin {
@@ -434,6 +439,13 @@ func (m *model) exec(n *Node, fr *frame) sig {
 			}
 			if n.Var {
 				sc = m.host("v:" + id + ":" + mm)
+			}
+			if n.Var && n.Edit {
+				// what the decorated error reads like afterwards is not modelled (only that no OTHER raise sees it)
+				m.catchMsg[n.ID] = anyMsg
+				if n.Shared && len(m.sharedE) > 0 {
+					m.sharedE[len(m.sharedE)-1] = "*"
+				}
 			}
 			if sc.kind == 0 {
 				sc = m.list(n.Catch, fr)
@@ -778,6 +790,7 @@ func (g *gen) stmt(c gctx) *Node {
 			return &Node{K: kind, ID: id, N: g.r.Intn(7), Body: body}
 		case (k == 6 || k == 7) && !leaf:
 			n := &Node{K: "try", ID: id, Var: g.r.Intn(2) == 0, HasFin: g.r.Intn(2) == 0}
+			n.Edit = n.Var && g.r.Intn(4) == 0
 			bc := inner
 			bc.noRet, bc.noBrk = true, true
 			if g.r.Intn(6) == 0 {
